@@ -21,7 +21,19 @@ CHECK = "check T"
 MODEL_VIEW = "model_view T"
 SHARD = 48
 THEOREMS = ["C13_roundtrip", "C13_roundtrip_trailing", "C13_reject_header", "C13_reject_truncated", "C13_fuel",
-            "C13_writer_reader", "C13_transparent", "C13_reemitted", "C13_codegen"]
+            "C13_writer_reader", "C13_transparent", "C13_reemitted", "C13_codegen",
+            # on source text / whole programs (Properties/C13Text.v)
+            "C13_node_insert", "C13_program_insert", "C13_program_rejected", "C13_text_front", "C13_text",
+            "C13_text_records", "C13_text_rejected"]
+PROOF_HEADER = "From A816 Require Import Properties.C13 Properties.C13Text."
+
+
+def instantiate(gen_q):
+    """Per run: the keyword the source-text theorems need is in the lexicon regenerated from /repo."""
+    lx = "(mk_lexicon Run.GenLexicon.mnemonics Run.GenLexicon.mnemonics_without_operand Run.GenLexicon.keywords)"
+    text = ("From A816 Require Import Model.Scanner Model.Parser.\nRequire Import Run.GenLexicon.\n"
+            f"Lemma C13_live_keyword : mem_str k_include_ips (lx_keywords {lx}) = true.\nProof. vm_compute. reflexivity. Qed.\n")
+    return text, ["C13_live_keyword"]
 RULE = ("IncludeIpsNode(path, Resolver(), delta) on patch files written to a scratch directory: files encoded by the "
         "harness from record lists (plain incl. 65535-byte, run-length incl. run 65535, adjacent/overlapping, offsets at "
         "0, 0xFFFFFF and around 0x454F46, data containing 'EOF'), files produced by the real IPSWriter, files whose EOF "
